@@ -20,7 +20,9 @@ RULE = ('strings generated from the address grammars (dotted quads with 1..5 par
         'stand-ins (every character whose lower/upper/casefold/NFKC/digit form lies in the address alphabet: '
         'ligatures, fullwidth and mathematical forms, superscripts ...; table read from unicodedata) replace one or '
         'more characters, and arbitrary printable/Unicode strings. Every '
-        'string is put to all nine validators and to int(). A case is non-trivial when at least one validator '
+        'string is put to all nine validators in EVERY legal call form of their pinned signatures (argument '
+        'positional / by keyword, strict omitted / positional / keyword / keyword order permuted, strict True and '
+        'False: 19 forms) and to int(); ints and None to both forms of the three number validators. A case is non-trivial when at least one validator '
         'accepts it on both sides, or it is a grammar-generated near miss (one rule of the grammar broken); '
         'distinct by the string itself')
 TRUSTED_BASE = [
@@ -147,17 +149,120 @@ def canon(fn, arg):
         return type(e).__name__
 
 
-def impl_str(s):
+# Pinned public signatures (as on the clean tree; written here as data, never read from the tree under test):
+# parameter names, order, defaults.  Every legal call form of them must give the answer the model gives for the
+# same logical arguments.
+REQUIRED = object()
+SIGNATURES = {
+    'is_valid_ipv4': [('address', REQUIRED), ('strict', True)],
+    'is_valid_ipv6': [('address', REQUIRED)],
+    'is_valid_ip': [('address', REQUIRED)],
+    'is_valid_cidr': [('address', REQUIRED)],
+    'is_valid_ipv6_cidr': [('address', REQUIRED)],
+    'is_valid_mac': [('address', REQUIRED)],
+    'is_valid_port': [('port', REQUIRED)],
+    'is_valid_icmp_type': [('type', REQUIRED)],
+    'is_valid_icmp_code': [('code', REQUIRED)],
+}
+# values exercised for every optional parameter
+OPTIONAL_VALUES = {('is_valid_ipv4', 'strict'): [True, False]}
+MAIN = object()      # placeholder for the value under test (always the first parameter)
+
+
+class Form:
+    """One way of writing a call: which parameters are positional, which by keyword (and in which order),
+    which omitted."""
+
+    def __init__(self, fname, lname, pos, kw):
+        self.fname, self.lname, self.pos, self.kw = fname, lname, pos, kw
+        self.template = '%s(%s)' % (fname, ', '.join(
+            ['{a}' if v is MAIN else repr(v) for v in pos] +
+            ['%s=%s' % (k, '{a}' if v is MAIN else repr(v)) for k, v in kw]))
+
+    def label(self, arg):
+        return self.template.replace('{a}', repr(arg))
+
+    def call(self, nu, arg):
+        """'1' / '0' for a truthy / falsy answer, the exception class name otherwise."""
+        try:
+            r = getattr(nu, self.fname)(*[arg if v is MAIN else v for v in self.pos],
+                                        **{k: (arg if v is MAIN else v) for k, v in self.kw})
+            return '1' if r else '0'
+        except Exception as e:      # noqa - anything at all is an answer of the implementation
+            return type(e).__name__
+
+
+def logical_name(fname, opts):
+    extra = ['%s=%r' % (k, v) for (k, d) in SIGNATURES[fname][1:] for v in [opts[k]] if v is not d]
+    return fname + ('[%s]' % ','.join(extra) if extra else '')
+
+
+def build_forms():
+    import itertools
+    forms = []
+    for fname, params in SIGNATURES.items():
+        optional = params[1:]
+        for values in itertools.product(*[OPTIONAL_VALUES[(fname, k)] for k, _ in optional]):
+            opts = dict(zip([k for k, _ in optional], values))
+            lname = logical_name(fname, opts)
+            modes_per_param = []
+            for k, d in params:
+                m = ['pos', 'kw']
+                if d is not REQUIRED and opts[k] is d:
+                    m.append('omit')
+                modes_per_param.append(m)
+            for modes in itertools.product(*modes_per_param):
+                # positional parameters must form a prefix of the parameter list
+                seen_non_pos = False
+                ok = True
+                for m in modes:
+                    if m == 'pos' and seen_non_pos:
+                        ok = False
+                    if m != 'pos':
+                        seen_non_pos = True
+                if not ok:
+                    continue
+                val = {params[0][0]: MAIN, **opts}
+                pos = [val[k] for (k, _), m in zip(params, modes) if m == 'pos']
+                kws = [(k, val[k]) for (k, _), m in zip(params, modes) if m == 'kw']
+                for perm in itertools.permutations(kws):
+                    forms.append(Form(fname, lname, pos, list(perm)))
+    return forms
+
+
+FORMS = build_forms()
+LNAMES = []
+for _f in FORMS:
+    if _f.lname not in LNAMES:
+        LNAMES.append(_f.lname)
+# position of each logical function in the driver's reply to `str` (int() is field 9)
+MODEL_FIELD = {f: i for i, f in enumerate(FUNCS)}
+MODEL_FIELD['is_valid_ipv4[strict=False]'] = 10
+VAL_FORMS = [f for f in FORMS if f.fname in FUNCS[6:]]
+VAL_FIELD = {f: i for i, f in enumerate(FUNCS[6:])}
+assert set(LNAMES) == set(MODEL_FIELD)
+
+
+def impl_forms(arg, forms=None):
     nu = _netutils()
-    out = [canon(getattr(nu, f), s) for f in FUNCS]
+    return [f.call(nu, arg) for f in (FORMS if forms is None else forms)]
+
+
+def impl_str(s):
+    """canonical call of every logical function + int(), in the order of the driver's reply"""
+    res = {}
+    for f, r in zip(FORMS, impl_forms(s)):
+        res.setdefault(f.lname, r)
     v = _int_or_none(s)
-    out.append('E' if v is None else str(v))
+    out = [res[f] for f in FUNCS] + ['E' if v is None else str(v), res['is_valid_ipv4[strict=False]']]
     return out
 
 
 def impl_val(v):
-    nu = _netutils()
-    return [canon(getattr(nu, f), v) for f in FUNCS[6:]]
+    res = {}
+    for f, r in zip(VAL_FORMS, impl_forms(v, VAL_FORMS)):
+        res.setdefault(f.lname, r)
+    return [res[f] for f in FUNCS[6:]]
 
 
 def encodable(s):
@@ -650,21 +755,32 @@ def correspondence(ctx):
     for (tag, s, near), rep in zip(cases, replies):
         ctx.evaluations += 1
         ctx.count('corr/' + tag.split('/')[0] + '/' + tag.split('/')[1][:12] if '/' in tag else 'corr/' + tag)
-        impl = impl_str(s)
+        forms = impl_forms(s)
         model = rep.split(' ')
+        v = _int_or_none(s)
         acc = False
-        for f, a, b in zip(FUNCS, impl, model):
-            if a == '1' and b == '1':
-                ctx.count('accepted-by-both/' + f)
+        bad = {}
+        canonical = {}
+        for fm, a in zip(FORMS, forms):
+            b = model[MODEL_FIELD[fm.lname]]
+            first = fm.lname not in canonical
+            canonical.setdefault(fm.lname, a)
+            if first and a == '1' and b == '1':
+                ctx.count('accepted-by-both/' + fm.lname)
                 acc = True
-            elif a not in ('0', '1'):
+            elif first and a not in ('0', '1'):
                 ctx.count('implementation-raised/' + a)
+            if a != b:
+                bad[fm.label(s)] = '%s (model %s)' % (a, b)
+        if ('E' if v is None else str(v)) != model[9]:
+            bad['int(%r)' % s] = '%s (model %s)' % (v, model[9])
+        ctx.count('corr/call-forms', len(FORMS))
         if acc or near:
             ctx.nontrivial(s)
         if acc:
-            ctx.sample({'arg': s, 'implementation': dict(zip(FUNCS + ['int'], impl))}, 6)
-        if impl != model:
-            out.append(Disagreement({'kind': 'str', 'arg': s}, ' '.join(impl), rep))
+            ctx.sample({'arg': s, 'implementation': canonical}, 6)
+        if bad:
+            out.append(Disagreement({'kind': 'str', 'arg': s}, bad, rep))
     # white box: the parsed value (used by the netmask test) against socket.inet_pton
     import socket
     wb = [s for _, s, _ in cases if s and '\x00' not in s][: (3000 if ctx.quick else 40000)]
@@ -688,11 +804,16 @@ def correspondence(ctx):
     for v, rep in zip(vals + [None], replies):
         ctx.evaluations += 1
         ctx.count('corr/int-or-None')
-        impl = impl_val(v)
-        if any(x == '1' for x in impl):
+        model = rep.split(' ')
+        bad = {}
+        res = impl_forms(v, VAL_FORMS)
+        for fm, a in zip(VAL_FORMS, res):
+            if a != model[VAL_FIELD[fm.lname]]:
+                bad[fm.label(v)] = '%s (model %s)' % (a, model[VAL_FIELD[fm.lname]])
+        if any(x == '1' for x in res):
             ctx.nontrivial(('int', v))
-        if ' '.join(impl) != rep:
-            out.append(Disagreement({'kind': 'int', 'arg': v}, ' '.join(impl), rep))
+        if bad:
+            out.append(Disagreement({'kind': 'int' if v is not None else 'none', 'arg': v}, bad, rep))
     return out
 
 
@@ -844,39 +965,59 @@ def expected_str(s):
         'is_valid_port': spec_range(s, 0, 65535),
         'is_valid_icmp_type': spec_range(s, 0, 255),
         'is_valid_icmp_code': spec_range(s, 0, 255),
+        # recorded interpretation: the non-strict form is the inet_aton numeric form, nothing after
+        'is_valid_ipv4[strict=False]': spec_aton(s),
     }
 
 
 def oracle_str(s):
-    """List of (function, kind, text) for every way the property fails on this string."""
+    """List of (logical function, kind, text, form) for every way the property fails on this string: every call
+    form of the pinned signatures must give the answer the grammar gives for the same logical arguments.  One
+    entry per (function, kind): the first call form that shows it."""
     nu = _netutils()
     exp = expected_str(s)
     voice = third_voice(s)
-    fails = []
-    for f in FUNCS:
-        got = canon(getattr(nu, f), s)
+    fails, seen = [], set()
+    for fm in FORMS:
+        f = fm.lname
+        got = fm.call(nu, s)
         if got not in ('0', '1'):
-            fails.append((f, 'raised', '%s(%r) raised %s' % (f, s, got)))
-            continue
-        g = got == '1'
-        if g != exp[f]:
-            fails.append((f, 'accepts-malformed' if g else 'rejects-well-formed',
-                          '%s(%r) is %s, the grammar says %s' % (f, s, g, exp[f])))
-        elif f in voice and voice[f] != g:
-            fails.append((f, 'differs-from-ipaddress', '%s(%r) is %s, ipaddress says %s' % (f, s, g, voice[f])))
+            kind, what = 'raised', '%s raised %s' % (fm.label(s), got)
+        else:
+            g = got == '1'
+            if g != exp[f]:
+                kind = 'accepts-malformed' if g else 'rejects-well-formed'
+                what = '%s is %s, the grammar says %s' % (fm.label(s), g, exp[f])
+            elif f in voice and voice[f] != g:
+                kind, what = 'differs-from-ipaddress', '%s is %s, ipaddress says %s' % (fm.label(s), g, voice[f])
+            else:
+                continue
+        if (f, kind) not in seen:
+            seen.add((f, kind))
+            fails.append((f, kind, what, fm.template))
     return fails
+
+
+RANGES = {'is_valid_port': (0, 65535), 'is_valid_icmp_type': (0, 255), 'is_valid_icmp_code': (0, 255)}
 
 
 def oracle_val(v):
     nu = _netutils()
-    fails = []
-    for f, lo, hi in (('is_valid_port', 0, 65535), ('is_valid_icmp_type', 0, 255), ('is_valid_icmp_code', 0, 255)):
-        got = canon(getattr(nu, f), v)
+    fails, seen = [], set()
+    for fm in VAL_FORMS:
+        f = fm.lname
+        lo, hi = RANGES[f]
+        got = fm.call(nu, v)
         want = True if (v is None and f == 'is_valid_icmp_code') else spec_range(v, lo, hi)
         if got not in ('0', '1'):
-            fails.append((f, 'raised', '%s(%r) raised %s' % (f, v, got)))
+            kind, what = 'raised', '%s raised %s' % (fm.label(v), got)
         elif (got == '1') != want:
-            fails.append((f, 'range', '%s(%r) is %s, expected %s' % (f, v, got == '1', want)))
+            kind, what = 'range', '%s is %s, expected %s' % (fm.label(v), got == '1', want)
+        else:
+            continue
+        if (f, kind) not in seen:
+            seen.add((f, kind))
+            fails.append((f, kind, what, fm.template))
     return fails
 
 
@@ -895,7 +1036,7 @@ def in_n5_class(f, s):
 
 def in_aton_trailing_class(f, s):
     """inet_aton numeric form, then an ASCII white-space character, then anything"""
-    if f != 'is_valid_ip' or ':' in s or '\x00' in s:
+    if f not in ('is_valid_ip', 'is_valid_ipv4[strict=False]') or ':' in s or '\x00' in s:
         return False
     m = RE_ATON_PREFIX.match(s)
     return m is not None and aton_form_ok(m.group(1))
@@ -911,11 +1052,11 @@ def known_class(f, kind, s):
     return None
 
 
-def shrink_str(s, f, kind):
+def shrink_str(s, f, kind, form):
     def still(chars):
         t = ''.join(chars)
-        return any(ff == f and kk == kind and known_class(ff, kk, t) == known_class(f, kind, s)
-                   for ff, kk, _ in oracle_str(t))
+        return any(ff == f and kk == kind and fo == form and known_class(ff, kk, t) == known_class(f, kind, s)
+                   for ff, kk, _, fo in oracle_str(t))
     if len(s) < 2:
         return s
     return ''.join(common.shrink_list(list(s), still, max_steps=300))
@@ -935,22 +1076,27 @@ def search(ctx, seeds, full=False):
 
     def try_str(s):
         ctx.evaluations += 1
-        for f, kind, what in oracle_str(s):
+        for f, kind, what, form in oracle_str(s):
             klass = known_class(f, kind, s)
-            small = shrink_str(s, f, kind)
-            w2 = [w for ff, kk, w in oracle_str(small) if ff == f and kk == kind]
             ctx.count('search/failing/%s:%s' % (f, kind) + (':known' if klass else ''))
-            note({'kind': 'str', 'arg': small, 'function': f}, f, kind, w2[0] if w2 else what, klass)
+            if per_kind.get((f, kind, klass), 0) >= (1 if klass else 2):
+                per_kind[(f, kind, klass)] += 1
+                continue
+            small = shrink_str(s, f, kind, form)
+            w2 = [w for ff, kk, w, fo in oracle_str(small) if ff == f and kk == kind and fo == form]
+            note({'kind': 'str', 'arg': small, 'function': f, 'form': form.replace('{a}', repr(small))},
+                 f, kind, w2[0] if w2 else what, klass)
 
     def try_val(v):
         ctx.evaluations += 1
-        for f, kind, what in oracle_val(v):
-            note({'kind': 'int' if v is not None else 'none', 'arg': v, 'function': f}, f, kind, what, None)
+        for f, kind, what, form in oracle_val(v):
+            note({'kind': 'int' if v is not None else 'none', 'arg': v, 'function': f,
+                  'form': form.replace('{a}', repr(v))}, f, kind, what, None)
 
     for sd in seeds[:300]:
         if sd.get('kind') in ('str', 'parse'):
             try_str(sd['arg'])
-        elif sd.get('kind') == 'int':
+        elif sd.get('kind') in ('int', 'none'):
             try_val(sd['arg'])
     n = (60000 if full else 10000) if ctx.quick else (600000 if full else 150000)
     for tag, s, _ in gen_strings(ctx, rng, n):
@@ -984,7 +1130,7 @@ def classify(ctx, failure, listed):
     # the model must reproduce it (the model follows the code as it is)
     if ctx.driver is not None and encodable(case['arg']):
         rep = ctx.driver.ask(req('str', common.hexs(case['arg']))).split(' ')
-        if rep[FUNCS.index(parts[0])] != '1':
+        if rep[MODEL_FIELD[parts[0]]] != '1':
             return None
     return kid
 
@@ -1004,23 +1150,32 @@ def replay(ctx, payload):
         print(payload.get('no_longer_checks'))
         return 0
     arg = case['arg']
+    FIELDS = FUNCS + ['int()', 'is_valid_ipv4[strict=False]']
     if case['kind'] in ('str', 'parse'):
         print('argument      : %r' % (arg,))
-        print('implementation:', dict(zip(FUNCS + ['int()'], impl_str(arg))))
+        if case.get('form'):
+            print('call form     : %s' % case['form'])
+        print('implementation, every call form of the pinned signatures:')
+        for fm, r in zip(FORMS, impl_forms(arg)):
+            print('    %-60s -> %s' % (fm.label(arg), r))
         if encodable(arg):
-            print('model         :', dict(zip(FUNCS + ['int()'], ctx.driver.ask(req('str', common.hexs(arg))).split(' '))))
+            print('model         :', dict(zip(FIELDS, ctx.driver.ask(req('str', common.hexs(arg))).split(' '))))
         fails = oracle_str(arg)
         print('grammar oracle:', expected_str(arg))
         print('ipaddress     :', third_voice(arg))
     else:
         v = None if case['kind'] == 'none' else arg
         print('argument      : %r' % (v,))
-        print('implementation:', dict(zip(FUNCS[6:], impl_val(v))))
-        print('model         :', ctx.driver.ask(req('none') if v is None else req('int', v)))
+        if case.get('form'):
+            print('call form     : %s' % case['form'])
+        print('implementation, every call form of the pinned signatures:')
+        for fm, r in zip(VAL_FORMS, impl_forms(v, VAL_FORMS)):
+            print('    %-60s -> %s' % (fm.label(v), r))
+        print('model         :', dict(zip(FUNCS[6:], ctx.driver.ask(req('none') if v is None else req('int', v)).split(' '))))
         fails = oracle_val(v)
-    new = [(f, k, w) for f, k, w in fails if known_class(f, k, arg) is None]
-    for f, k, w in fails:
-        print('property oracle: %s%s' % (w, '' if (f, k, w) in new else '   [known finding %s]' % known_class(f, k, arg)))
+    new = [x for x in fails if known_class(x[0], x[1], arg) is None]
+    for x in fails:
+        print('property oracle: %s%s' % (x[2], '' if x in new else '   [known finding %s]' % known_class(x[0], x[1], arg)))
     if not fails:
         print('property oracle: holds on this input')
     return 1 if new else 0
